@@ -53,6 +53,8 @@ INVARIANTS NonEmpty OrderedDisjoint CursorIsEnd BeforeLimit StartsAtZero AtStopG
 CHECK_DEADLOCK TRUE
 """
 BATCH = 12000          # traces per TLC batch file
+MAX_REPORTED = 12      # rejected traces reported per run (every rejection costs two more TLC runs)
+_REJECTED = [0]
 
 
 # ----------------------------------------------------------------------------- real code -> traces
@@ -87,7 +89,8 @@ def _scan_worker(args):
     W.quiet()
     files = []
     cur = []
-    nstates = ntraces = nontrivial = same = 0
+    nstates = ntraces = same = 0
+    nontrivial = set()
     seen = set()
     sample = None
 
@@ -111,7 +114,7 @@ def _scan_worker(args):
                 seen.add(key)
                 # non-trivial: at least two tokens, or an EBAD dropped, or stopped at a NUL
                 if len(tr["ev"]) > 2 or tr["e"] or tr["z"]:
-                    nontrivial += 1
+                    nontrivial.add(hash(key))
                     if sample is None and len(tr["ev"]) > 3:
                         sample = tr
             if len(cur) >= BATCH:
@@ -131,7 +134,10 @@ def scan_all(ctx, seqs, tag):
         pool.close()
         pool.join()
     files = [f for r in res for f in r[0]]
-    tot = [sum(r[k] for r in res) for k in (1, 2, 3, 4)]
+    distinct = set()
+    for r in res:
+        distinct |= r[3]
+    tot = [sum(r[1] for r in res), sum(r[2] for r in res), len(distinct), sum(r[4] for r in res)]
     samples = [r[5] for r in res if r[5]]
     return files, tot, samples
 
@@ -162,6 +168,8 @@ def validate_file(ctx, item):
     name = os.path.basename(path)[:-5]
     rejected = []
     for _ in range(11):
+        if _REJECTED[0] >= MAX_REPORTED:
+            return None, None, nstates, rejected   # enough counterexamples: do not keep re-running TLC
         r = tlc.run(ctx, "ScannerTrace", TRACE_CFG % {"diag": "FALSE"}, name="tr-" + name,
                     env={"TRACE_FILE": path}, workers=2, heap="3g", timeout=1800)
         if r.ok:
@@ -177,6 +185,7 @@ def validate_file(ctx, item):
         if reason is None:
             raise tlc.MachineryError("trace %d of %s rejected in the batch but accepted alone" % (tid, name))
         rejected.append((tr, reason))
+        _REJECTED[0] += 1
         nstates -= len(tr["ev"]) + 1
         if not batch:
             return 0, 0, 0, rejected
